@@ -304,7 +304,7 @@ func drawValue(rt *rapid.T, label string, allowEqHash bool) string {
 
 func TestC04_Identities(t *testing.T) {
 	rec := stats.New(t, "C04", rule)
-	rp.Check(t, 16000, 300000, func(rt *rapid.T) {
+	rp.Check(t, 16000, 2000000, func(rt *rapid.T) {
 		c := Case{Format: rp.Pick(rt, "format", envb.MTJWS, envb.MTCOSE), Scheme: rp.Pick(rt, "scheme", "x509", "x509", "sa")}
 		// leaf subject
 		shape := rp.Pick(rt, "leafShape", "plain", "plain", "plain", "plain", "plain", "duplicate", "multivalued", "missing-mandatory", "unknown-type", "eqhash-value")
@@ -511,7 +511,7 @@ func TestC04_Identities(t *testing.T) {
 // verifier (fails closed at construction).
 func TestC04_InvalidIdentity(t *testing.T) {
 	rec := stats.New(t, "C04", rule)
-	rp.Check(t, 3000, 40000, func(rt *rapid.T) {
+	rp.Check(t, 3000, 300000, func(rt *rapid.T) {
 		avs := []pki.AV{{T: "C", V: drawValue(rt, "c", false)}, {T: "ST", V: drawValue(rt, "st", false)}, {T: "O", V: drawValue(rt, "o", false)}, {T: "CN", V: drawValue(rt, "cn", false)}}
 		op := rp.Pick(rt, "op", "missing-C", "missing-ST", "missing-O", "duplicate", "multivalued", "eqhash", "empty-value", "no-equals")
 		text := ""
